@@ -470,9 +470,9 @@ func propC08(c *Ctx) {
 		plain := safeCall(func() string {
 			return outcome(functions.NewDefaultFunctionCollection().FindByName(name).Calculate(args, mgrOf("u")))
 		})
-		for h := 4; h <= 5; h++ {
+		for h := 4; h <= 7; h++ {
 			for _, removed := range fnNames[:i] {
-				if (len(removed)+len(name))%6 == h {
+				if (len(removed)+len(name))%8 == h {
 					runFnEdited(c, "u", name, removed, args, plain)
 					break
 				}
@@ -525,7 +525,19 @@ func runFnEdited(c *Ctx, m, name, removed string, args []*variants.Variant, plai
 		})
 		// six edit histories (chosen by the removed name): remove only; remove then add; add then remove; find, remove;
 		// find, remove BY INDEX; find in another letter case, remove by index, add
-		switch (len(removed) + len(name)) % 6 {
+		shadow := functions.NewDelegatedFunction(swapCase(name), func(params []*variants.Variant, ops variants.IVariantOperations) (*variants.Variant, error) {
+			return variants.VariantFromString("user function of the same name"), nil
+		})
+		switch (len(removed) + len(name)) % 8 {
+		case 6:
+			// a user function whose name equals the looked-up one up to letter case, added AFTER a lookup: the first one
+			// added (the standard function) keeps winning
+			coll.FindByName(removed)
+			coll.Add(shadow)
+		case 7:
+			coll.Add(shadow)
+			coll.FindByName(removed)
+			coll.RemoveByName(removed)
 		case 4:
 			idx := coll.FindIndexByName(removed) // the index is known before; the last lookup before the removal is `name`
 			coll.FindByName(name)
@@ -562,7 +574,7 @@ func runFnEdited(c *Ctx, m, name, removed string, args []*variants.Variant, plai
 		return
 	}
 	if got != plain {
-		c.fail(Failure{Kind: "oracle", Op: op, Impl: got, Spec: plain, Note: fmt.Sprintf("after removing %q (edit history %d), %s(...) gives %s; on the untouched default collection it gives %s", removed, (len(removed)+len(name))%6, name, got, plain)})
+		c.fail(Failure{Kind: "oracle", Op: op, Impl: got, Spec: plain, Note: fmt.Sprintf("after removing %q (edit history %d), %s(...) gives %s; on the untouched default collection it gives %s", removed, (len(removed)+len(name))%8, name, got, plain)})
 	}
 }
 
